@@ -234,7 +234,8 @@ def _run_shard(args):
 def coq_eval(tag, imports, exprs, shard=200, timeout=900, prelude=""):
     """Evaluate Gallina expressions of type string by vm_compute, in parallel shards.
     Returns list of python strings (same order). Raises RuntimeError on a coqc failure."""
-    d = os.path.join(CACHE, "cases", tag)
+    # one directory per process: two runs of checks that share a tag must not clobber each other's case files
+    d = os.path.join(CACHE, "cases", "%s-%d" % (tag, os.getpid()))
     shutil.rmtree(d, ignore_errors=True)
     os.makedirs(d, exist_ok=True)
     shards = []
@@ -257,6 +258,7 @@ def coq_eval(tag, imports, exprs, shard=200, timeout=900, prelude=""):
         if len(results[s]) != n:
             raise RuntimeError("shard %s: expected %d results, got %d" % (s, n, len(results[s])))
         res.extend(results[s])
+    shutil.rmtree(d, ignore_errors=True)      # kept only when an evaluation failed
     return res
 
 
